@@ -126,3 +126,130 @@ From TF Require Import Proofs.Percent.
 Theorem C05_float_is_exactly_100 : forall c : Z, (0 < c)%Z -> percent c c = 100%R.
 Proof. exact percent_intact. Qed.
 Print Assumptions C05_float_is_exactly_100.
+
+(* ---------------------------------------------------------------------------------------------- *)
+(* composition: the metafiles THIS TOOL writes satisfy the premises above, end to end             *)
+(* (Model/Creators.v -> Model/CheckPaths.v -> Model/RecheckInit.v -> Model/Recheck.v;             *)
+(*  Proofs/OwnMetafiles.v)                                                                        *)
+(* ---------------------------------------------------------------------------------------------- *)
+(* recheck_model fs m path = Checker(m, path) run to exhaustion: Some (self.total, matched, consumed).
+   t is the payload as a content tree (any enumeration order of its directories), `holds fs base t` says
+   the file system has t at base (root present, a regular file iff t is one, every file of t at
+   base/<components> with its content; nothing is assumed about other paths), find_root ... = Some base
+   says the checker was pointed at the payload root or at a parent from which it finds it
+   (C05_own_root_found).  tree_size t = the payload's byte count. *)
+From TF Require Import Model.Creators Model.RecheckInit Proofs.CreatorsProofs Proofs.CreatorsProofs2 Proofs.OwnMetafiles.
+Local Open Scope nat_scope.   (* Reals, imported above for the float theorem, put R_scope on top *)
+
+(* v1 without --align, directory or single file, every option set, every piece length > 0 *)
+Theorem C05_own_v1_metafiles_verify : forall (H1 H256 : bytes -> bytes) (B : nat),
+  (forall x, length (H1 x) = 20) ->
+  forall o rootstr name pl t fs base path,
+  0 < pl -> wf_node t -> has_file t ->
+  find_root (fs_exists fs) (fs_listdir fs) name path = Some base -> holds fs base t ->
+  recheck_model H1 H256 B fs (create_v1 H1 false o rootstr name pl t) path =
+  Some (Z.of_nat (tree_size t), tree_size t, tree_size t).
+Proof. exact own_v1_plain_verify. Qed.
+Print Assumptions C05_own_v1_metafiles_verify.
+
+(* v1 with --align: the pad entries (which never exist on disk: no_pad_files) are accounted as zeros; the
+   recorded size is every file rounded up to the piece length (C05_own_v1_aligned_size) *)
+Theorem C05_own_v1_metafiles_verify_aligned : forall (H1 H256 : bytes -> bytes) (B : nat),
+  (forall x, length (H1 x) = 20) ->
+  forall o rootstr name pl t fs base path,
+  0 < pl -> wf_node t -> has_file t ->
+  find_root (fs_exists fs) (fs_listdir fs) name path = Some base -> holds fs base t ->
+  no_pad_files fs base ->
+  let n := v1_recorded_size true rootstr pl t in
+  recheck_model H1 H256 B fs (create_v1 H1 true o rootstr name pl t) path = Some (Z.of_nat n, n, n).
+Proof. exact own_v1_aligned_verify. Qed.
+Print Assumptions C05_own_v1_metafiles_verify_aligned.
+
+Theorem C05_own_v1_aligned_size : forall rootstr pl es,
+  v1_recorded_size true rootstr pl (Dir es) =
+  RecheckSpec.sum_nat (map (fun f => length (snd f) + Hasher.neg_mod (length (snd f)) pl) (files_of [] (Dir es))).
+Proof. exact v1_recorded_size_aligned. Qed.
+Print Assumptions C05_own_v1_aligned_size.
+
+(* ... and without the guard no_pad_files the statement is false of the code as it is: a payload that has a
+   file of its own at a pad path (.pad/<n>) is hashed as zeros by the creator and read from disk by
+   FeedChecker -- intact content, 4 of 8 bytes matched (real code: 50.0 for {.pad/1, a of 16383 bytes},
+   piece length 16 KiB, align=True) *)
+Theorem C05_own_v1_aligned_pad_path_collision_refuted :
+  exists (H1 H256 : bytes -> bytes) (B : nat) o rootstr name pl t fs base,
+    (forall x, length (H1 x) = 20) /\ 0 < pl /\ wf_node t /\ has_file t /\ last base [] = name /\
+    holds fs base t /\
+    recheck_model H1 H256 B fs (create_v1 H1 true o rootstr name pl t) base = Some (8%Z, 4, 8).
+Proof. exact aligned_pad_path_collision_refuted. Qed.
+Print Assumptions C05_own_v1_aligned_pad_path_collision_refuted.
+
+(* v2: TorrentFileV2 and TorrentAssembler(meta_version 2) (v2_output = either).  no_layer_collision: no two
+   files larger than a piece have the same root and different piece layers ("piece layers" is keyed by the
+   root alone; true of SHA-256 as far as anyone knows, identical files satisfy it) *)
+Theorem C05_own_v2_metafiles_verify : forall (H1 H256 : bytes -> bytes) (B : nat), 0 < B ->
+  forall k pl, pl = B * 2 ^ k -> (forall x, length (H256 x) = 32) ->
+  forall o name t m fs base path,
+  wf_node t -> v2_output H1 H256 B pl o name t m -> no_layer_collision H256 B k pl t ->
+  find_root (fs_exists fs) (fs_listdir fs) name path = Some base -> holds fs base t ->
+  recheck_model H1 H256 B fs m path = Some (Z.of_nat (tree_size t), tree_size t, tree_size t).
+Proof. exact own_v2_only_verify. Qed.
+Print Assumptions C05_own_v2_metafiles_verify.
+
+(* hybrid: TorrentFileHybrid and TorrentAssembler(meta_version 3); checked by HashChecker (meta_version 3) *)
+Theorem C05_own_v2_metafiles_verify_hybrid : forall (H1 H256 : bytes -> bytes) (B : nat), 0 < B ->
+  forall k pl, pl = B * 2 ^ k -> (forall x, length (H256 x) = 32) ->
+  forall o name t m fs base path,
+  wf_node t -> hybrid_output H1 H256 B pl o name t m -> no_layer_collision H256 B k pl t ->
+  find_root (fs_exists fs) (fs_listdir fs) name path = Some base -> holds fs base t ->
+  recheck_model H1 H256 B fs m path = Some (Z.of_nat (tree_size t), tree_size t, tree_size t).
+Proof. exact own_hybrid_verify. Qed.
+Print Assumptions C05_own_v2_metafiles_verify_hybrid.
+
+(* the premises of C05_v1_intact / C05_v2_intact_bep52 one by one, as facts about the written metafile:
+   where check_paths looks (one entry per file, recorded length = real length) and what is recorded *)
+Theorem C05_own_v1_files_listed : forall (H1 : bytes -> bytes) o rootstr name pl es base f,
+  let m := create_v1 H1 false o rootstr name pl (Dir es) in
+  let fl := snd (filelist_total rootstr (Dir es)) in
+  Permutation.Permutation fl (files_of [] (Dir es)) /\
+  check_paths (info_of m) name base f =
+  Some (map (fun x => mk_fi (base ++ fst x) (Z.of_nat (length (snd x))) None) fl,
+        Z.of_nat (RecheckSpec.sum_nat (map (fun x => length (snd x)) fl))).
+Proof. exact own_v1_check_paths. Qed.
+Print Assumptions C05_own_v1_files_listed.
+
+Theorem C05_own_v1_recorded_digests : forall (H1 : bytes -> bytes), (forall x, length (H1 x) = 20) ->
+  forall o rootstr name pl es, 0 < pl -> has_file (Dir es) ->
+  let m := create_v1 H1 false o rootstr name pl (Dir es) in
+  let fl := snd (filelist_total rootstr (Dir es)) in
+  exists pieces, lookup ck_pieces (info_of m) = Some (BStr pieces) /\
+    chunks SHA1_LEN pieces = map H1 (chunks pl (concat (map snd fl))).
+Proof. exact own_v1_recorded_digests. Qed.
+Print Assumptions C05_own_v1_recorded_digests.
+
+Theorem C05_own_v2_files_listed : forall (H1 H256 : bytes -> bytes) (B : nat), 0 < B ->
+  forall k pl, pl = B * 2 ^ k -> forall o name es m base,
+  wf_node (Dir es) -> v2_capable_output H1 H256 B pl o name (Dir es) m ->
+  check_paths (info_of m) name base false =
+  Some (map (fi_of H256 B base) (files_of [] (sort_tree (Dir es))), Z.of_nat (tree_size (Dir es))).
+Proof. exact own_v2_check_paths. Qed.
+Print Assumptions C05_own_v2_files_listed.
+
+(* the hypotheses are satisfiable: the file system that has nothing but t at base; the root is found from
+   itself and from a parent not named like it; a non-empty file makes the size (hence consumed) positive *)
+Theorem C05_own_disk_of_holds : forall base t, wf_node t -> holds (disk_of base t) base t.
+Proof. exact disk_of_holds. Qed.
+Print Assumptions C05_own_disk_of_holds.
+
+Theorem C05_own_root_found : forall fs base t name path,
+  holds fs base t -> last base [] = name ->
+  path = base \/
+  (base = path ++ [name] /\ fs_exists fs path = true /\ last path [] <> name /\
+   exists es, fs_listdir fs path = Some es /\ In name es) ->
+  find_root (fs_exists fs) (fs_listdir fs) name path = Some base.
+Proof. exact holds_find_root. Qed.
+Print Assumptions C05_own_root_found.
+
+Theorem C05_own_size_positive : forall t,
+  (exists p (d : bytes), In (p, d) (files_of [] t) /\ d <> []) -> 0 < tree_size t.
+Proof. exact tree_size_pos. Qed.
+Print Assumptions C05_own_size_positive.
